@@ -25,7 +25,12 @@ def main():
         return 2
     pid = sys.argv[1].upper()
     mod = importlib.import_module("checks.%s" % pid.lower())
-    return mod.main(sys.argv[2:])
+    try:
+        return mod.main(sys.argv[2:])
+    except Exception:
+        import traceback
+        traceback.print_exc()
+        return 2        # a crash of the machinery is a harness error, never a violation
 
 
 if __name__ == "__main__":
